@@ -64,10 +64,10 @@ typedef struct {
 
 #define DDP_IS_SMALL_ANY(any) ((any)->vtable_ptr->type_size <= 16)
 // returns a pointer to the any's value, taking big vs small any into account
-#define DDP_ANY_VALUE_PTR(any) \
-	DDP_IS_SMALL_ANY(any) ?    \
-		&((any)->value) :      \
-		(any)->value_ptr
+#define DDP_ANY_VALUE_PTR(any)        \
+	(DDP_IS_SMALL_ANY(any) ?          \
+		 (void *)&((any)->value) :    \
+		 (void *)(any)->value_ptr)
 
 // frees the given any
 void ddp_free_any(ddpany *any);
